@@ -100,8 +100,14 @@ def constraint_traces(ctx, tf, tfl, rng, n_cfg):
     subject("PwlConstraintPerUnit", {"layer": "pwl"},
             lambda n=n: [rng.integers(-128, 129, size=n) / 64.0 for _ in range(4)],
             lambda K, cons=cons: cons(tf.constant(K, dtype=tf.float32)).numpy())
-  for _ in range(n_cfg):
-    c = c06.random_cfg(rng)
+  # partial orders in which a bucket / weight has several lower AND several upper neighbours (the projection reduces
+  # over the neighbours of each node: that reduction must stay inside the unit)
+  fan = [{"kind": "cat", "nb": 4, "pairs": [[1, 3], [2, 3]], "hasMin": False, "omin": [0, 1], "hasMax": False, "omax": [1, 1]},
+         {"kind": "cat", "nb": 5, "pairs": [[1, 2], [1, 3], [2, 4], [3, 4], [1, 5]], "hasMin": True, "omin": [-1, 1], "hasMax": True,
+          "omax": [2, 1]},
+         {"kind": "linear", "mono": [1, 1, 1], "mdom": [[1, 2], [1, 3]], "rdom": [], "range": [[1, 1]] * 3, "norm": 0},
+         {"kind": "linear", "mono": [1, 1, 1, 0], "mdom": [[1, 3], [2, 3]], "rdom": [], "range": [[1, 1]] * 4, "norm": 1}]
+  for c in fan + [c06.random_cfg(rng) for _ in range(n_cfg)]:
     n = c["nb"] if c["kind"] == "cat" else len(c["mono"])
     try:
       cons = c06.cat_constraint(c) if c["kind"] == "cat" else c06.lin_constraint(c)
